@@ -12,6 +12,7 @@ import (
 	"time"
 
 	"github.com/internetarchive/Zeno/internal/pkg/config"
+	"github.com/internetarchive/Zeno/internal/pkg/log"
 	"github.com/internetarchive/Zeno/internal/pkg/stats"
 	"github.com/internetarchive/Zeno/internal/verifmodel"
 	"github.com/internetarchive/Zeno/internal/verifrt"
@@ -164,4 +165,87 @@ func VerifH_C15_producer() {
 	cancel()
 	globalHQ.wg.Wait()
 	verifrt.Cover("stopped")
+}
+
+// VerifH_C08_hq: crawl-HQ seencheck. An asset or redirect target is marked seen only if HQ's answer omits the value
+// that was sent for it; the seed is never sent nor marked; on an HQ error nothing is marked.
+func VerifH_C08_hq() {
+	raws := []string{"http://a.example/x", "http://b.example/y?q=a%20b&p=1"}
+	client := &gocrawlhq.Client{Key: "k", Secret: "s", Project: "p"}
+	unseen := make([]bool, 2)
+	for i := range unseen {
+		unseen[i] = verifrt.Choice("hq-says-unseen", 2) == 1
+	}
+	fail := verifrt.Choice("hq-fails", 2) == 1
+	if verifrt.Symbolic() {
+		verifmodel.HQUnseen = map[string]bool{}
+		for i, r := range raws {
+			verifmodel.HQUnseen[r] = unseen[i]
+		}
+		verifmodel.HQSeencheckErr = fail
+	} else {
+		ts := httptest.NewServer(http.HandlerFunc(func(w http.ResponseWriter, r *http.Request) {
+			if fail {
+				w.WriteHeader(503)
+				return
+			}
+			var sent []gocrawlhq.URL
+			_ = json.NewDecoder(r.Body).Decode(&sent)
+			var out []gocrawlhq.URL
+			for _, u := range sent {
+				for i, raw := range raws {
+					if u.Value == raw && unseen[i] {
+						out = append(out, u)
+					}
+				}
+			}
+			if len(out) == 0 {
+				w.WriteHeader(204)
+				return
+			}
+			w.WriteHeader(200)
+			_ = json.NewEncoder(w).Encode(out)
+		}))
+		defer ts.Close()
+		client.HTTPClient = ts.Client()
+		client.SeencheckEndpoint, _ = url.Parse(ts.URL + "/seencheck")
+	}
+	globalHQ = &hq{client: client}
+	if !verifrt.Symbolic() {
+		log.Start()
+		logger = log.NewFieldedLogger(&log.Fields{"component": "hq"})
+	}
+	seed := models.NewItem("s", &models.URL{Raw: "http://page.example/"}, "")
+	_ = seed.GetURL().Parse()
+	n := 1 + verifrt.Choice("children-1", 2)
+	var kids []*models.Item
+	for i := 0; i < n; i++ {
+		u := &models.URL{Raw: raws[i]}
+		_ = u.Parse()
+		c := models.NewItem("c"+string(rune('0'+i)), u, "")
+		if err := seed.AddChild(c, models.ItemGotChildren); err != nil {
+			panic(err)
+		}
+		kids = append(kids, c)
+	}
+	err := SeencheckItem(seed)
+	verifrt.Assert(seed.GetStatus() == models.ItemGotChildren, "C08 HQ seencheck never marks the seed")
+	if fail {
+		verifrt.Cover("hq-error")
+		verifrt.Assert(err != nil, "C08 an HQ error is reported")
+		for _, c := range kids {
+			verifrt.Assert(c.GetStatus() == models.ItemFresh, "C08 nothing is marked seen on an HQ error")
+		}
+		return
+	}
+	verifrt.Assert(err == nil, "C08 HQ seencheck succeeds")
+	for i, c := range kids {
+		if unseen[i] {
+			verifrt.Cover("hq-unseen")
+			verifrt.Assert(c.GetStatus() == models.ItemFresh, "C08 nothing is skipped as seen unless crawl HQ reported it as seen")
+		} else {
+			verifrt.Cover("hq-seen")
+			verifrt.Assert(c.GetStatus() == models.ItemSeen, "C08 a URL crawl HQ has seen is skipped")
+		}
+	}
 }
